@@ -76,5 +76,8 @@ int main(int argc, char **argv) {
     else if (prop == "c16") rc = drive("C16", opt, c16::body);
     else if (prop == "c12") rc = drive("C12", opt, tp::c12);
     if (opt.own_work) rm_rf(opt.work);
-    return rc;
+    // leave without exit handlers: after a failed case entities may still be open, and HDF5's own
+    // termination routine is not part of what is checked
+    fflush(nullptr);
+    _exit(rc);
 }
